@@ -592,6 +592,7 @@ def suite(prop, rng, tier):
                                       ncls=rng.choice([2, 3, 6])).line())
     elif prop == "C14":
         cases += eq_pairs(rng, big)
+        cases += eq_small_caps(rng, big)
         rnd(MENU_MAP_CORE + [(5, lambda g: g.eq(m_reg(g), m_reg(g)))] + MENU_SET_CORE
             + [(4, lambda g: g.s_eq(s_reg(g), s_reg(g)))], N(150, 3000), (10, 40), ncls=4)
     elif prop == "C15":
@@ -791,6 +792,47 @@ def eq_pairs(rng, big):
         sops += [[161, 2, 3], [161, 3, 2], [161, 2, 2]]
         cfg = [0, 0, 0, 0, ca, cb, ca, cb]
         cases.append(" ; ".join(" ".join(map(str, s)) for s in [cfg] + ops + sops))
+    return cases
+
+
+def eq_small_caps(rng, big):
+    """== between containers of SMALL and DIFFERENT capacities (0, 1, 2 against 0..3): every content that fits, both
+    directions, maps and sets -- compile-time special cases on the capacity live here"""
+    import itertools
+    cases = []
+    uni = [1, 2, 3]
+
+    def contents(cap):
+        out = []
+        for k in range(min(cap, len(uni)) + 1):
+            for comb in itertools.combinations(uni, k):
+                for perm in itertools.permutations(comb):
+                    for dats in itertools.product((0, 1), repeat=k):
+                        out.append(list(zip(perm, dats)))
+        return out
+    for ca in (0, 1, 2):
+        for cb in (0, 1, 2, 3):
+            pairs = [(a, b) for a in contents(ca) for b in contents(cb)]
+            if not big and len(pairs) > 40:
+                rng.shuffle(pairs)
+                pairs = pairs[:40]
+            for a, b in pairs:
+                nid = [10]
+                ops = []
+                for r, cont in ((0, a), (1, b)):
+                    for c, d in cont:
+                        nid[0] += 2
+                        ops.append([10, r, nid[0], c, nid[0] + 1, d])
+                ops += [[61, 0, 1], [61, 1, 0]]
+                sops = []
+                nid[0] += 2
+                for r, cont in ((2, a), (3, b)):
+                    for c, d in cont:
+                        nid[0] += 1
+                        sops.append([110, r, nid[0], c])
+                sops += [[161, 2, 3], [161, 3, 2]]
+                cfg = [0, 0, 0, 0, ca, cb, ca, cb]
+                cases.append(" ; ".join(" ".join(map(str, s_)) for s_ in [cfg] + ops + sops))
     return cases
 
 
